@@ -70,6 +70,10 @@ struct Case {
     /// every scalar name (with its width) that is observed after each step
     names: Vec<(String, usize)>,
     max_steps: usize,
+    /// the initial memory image reaches the executor as a permissioned backing (the way a loaded
+    /// binary does) instead of through stores
+    #[serde(default)]
+    backed: bool,
 }
 
 // ------------------------------------------------------------------------------------------
@@ -315,6 +319,7 @@ fn decode(t: &mut Tape) -> Case {
         blob,
         names: names.into_iter().collect(),
         max_steps,
+        backed: t.chance(1, 3),
     }
 }
 
@@ -548,23 +553,39 @@ fn build_program(case: &Case) -> Result<il::Program, String> {
 fn build_state(case: &Case) -> Result<State, String> {
     let endian = if case.state.mem.big_endian { Endian::Big } else { Endian::Little };
     let mut lo_hi = None;
-    let mut mem = match &case.blob {
-        Some(b) => {
-            // the way a loaded binary reaches the executor: a permissioned backing
-            let mut bk = backing::Memory::new(endian.clone());
-            bk.set_memory(b.addr, b.bytes.clone(), MemoryPermissions::READ | MemoryPermissions::EXECUTE);
-            lo_hi = Some((b.addr, b.addr + b.bytes.len() as u64));
-            ExMemory::new_with_backing(endian, RC::new(bk))
-        }
-        None => ExMemory::new(endian),
-    };
-    for (a, b) in &case.state.mem.bytes {
-        if let Some((lo, hi)) = lo_hi {
-            if *a >= lo && *a < hi {
-                continue;
+    let mut bk = backing::Memory::new(endian.clone());
+    let mut any_backing = false;
+    if let Some(b) = &case.blob {
+        // the way a loaded binary reaches the executor: a permissioned backing
+        bk.set_memory(b.addr, b.bytes.clone(), MemoryPermissions::READ | MemoryPermissions::EXECUTE);
+        lo_hi = Some((b.addr, b.addr + b.bytes.len() as u64));
+        any_backing = true;
+    }
+    let outside_blob = |a: u64| lo_hi.map(|(lo, hi)| a < lo || a >= hi).unwrap_or(true);
+    if case.backed {
+        // every maximal run of mapped bytes becomes one backing section
+        let mut run: Option<(u64, Vec<u8>)> = None;
+        for (a, b) in case.state.mem.bytes.iter().filter(|(a, _)| outside_blob(**a)) {
+            match &mut run {
+                Some((start, bytes)) if *start + bytes.len() as u64 == *a => bytes.push(*b),
+                _ => {
+                    if let Some((start, bytes)) = run.take() {
+                        bk.set_memory(start, bytes, MemoryPermissions::READ | MemoryPermissions::WRITE);
+                    }
+                    run = Some((*a, vec![*b]));
+                }
             }
         }
-        mem.store(*a, il::const_(*b as u64, 8)).map_err(|e| e.to_string())?;
+        if let Some((start, bytes)) = run.take() {
+            bk.set_memory(start, bytes, MemoryPermissions::READ | MemoryPermissions::WRITE);
+        }
+        any_backing = true;
+    }
+    let mut mem = if any_backing { ExMemory::new_with_backing(endian, RC::new(bk)) } else { ExMemory::new(endian) };
+    if !case.backed {
+        for (a, b) in case.state.mem.bytes.iter().filter(|(a, _)| outside_blob(**a)) {
+            mem.store(*a, il::const_(*b as u64, 8)).map_err(|e| e.to_string())?;
+        }
     }
     let mut st = State::new(mem);
     for (k, v) in &case.state.scalars {
@@ -801,6 +822,9 @@ struct Stats {
 
 fn check(case: &Case, obs: &mut Obs) -> Result<(), Failure> {
     obs.class(&format!("klass-{}", case.klass));
+    if case.backed {
+        obs.class("initial-memory-in-backing");
+    }
     if case.state.mem.big_endian {
         obs.class("big-endian");
     }
@@ -1360,6 +1384,7 @@ fn main() -> std::process::ExitCode {
     ];
     spec.floors = vec![
         ("klass-plain", 0.20),
+        ("initial-memory-in-backing", 0.20),
         ("klass-broken-guards", 0.08),
         ("klass-intrinsics", 0.06),
         ("klass-branches", 0.15),
